@@ -328,6 +328,10 @@ func family(p program) string {
 func run(c *common.Ctx) *common.Result {
 	res := common.NewResult()
 	progs := programs(c.Thorough())
+	maxExecs := int64(200000)
+	if c.Thorough() {
+		maxExecs = 3000000
+	}
 	only := ""
 	for _, a := range c.Args {
 		if strings.HasPrefix(a, "only=") {
@@ -353,7 +357,7 @@ func run(c *common.Ctx) *common.Result {
 		}
 		reported := map[string]bool{}
 		outcomes := map[string]bool{}
-		st := explore.DFS(explore.Options{Bound: p.Bound, MaxExecs: 200000, Deadline: c.Deadline}, func(r *explore.Run) bool {
+		st := explore.DFS(explore.Options{Bound: p.Bound, MaxExecs: maxExecs, Deadline: c.Deadline}, func(r *explore.Run) bool {
 			x, err := runOnce(p, r, false, 0)
 			if err != nil {
 				res.Note("generated program does not parse (machinery): " + p.Name + ": " + err.Error() + "\n" + p.Src)
